@@ -13,6 +13,39 @@ def parseLines (xs : List Sx) : Option (List (List Nat)) := xs.mapM parseLineSx
 def mkGi (ci : Bool) (root : Bytes) (lines : List (List Nat)) : Gi :=
   { root := root, globs := buildGlobs ci lines }
 
+def parseTok : Sx → Option FlagTok
+  | .atom "h1" => some (.hidden true) | .atom "h0" => some (.hidden false)
+  | .atom "n1" => some (.noIgnore true) | .atom "n0" => some (.noIgnore false)
+  | .atom "d1" => some (.noIgnoreDot true) | .atom "d0" => some (.noIgnoreDot false)
+  | .atom "e1" => some (.noIgnoreExclude true) | .atom "e0" => some (.noIgnoreExclude false)
+  | .atom "f1" => some (.noIgnoreFiles true) | .atom "f0" => some (.noIgnoreFiles false)
+  | .atom "g1" => some (.noIgnoreGlobal true) | .atom "g0" => some (.noIgnoreGlobal false)
+  | .atom "p1" => some (.noIgnoreParent true) | .atom "p0" => some (.noIgnoreParent false)
+  | .atom "v1" => some (.noIgnoreVcs true) | .atom "v0" => some (.noIgnoreVcs false)
+  | .atom "r1" => some (.noRequireGit true) | .atom "r0" => some (.noRequireGit false)
+  | .atom "u" => some .unrestricted
+  | _ => none
+
+/-- `-g` globs: `(l …)` plain, `(lg …)` under `--glob-case-insensitive`, `(li …)` given with `--iglob`;
+the list is in command-line order -/
+def parseOvGlob : Sx → Option (Nat × List Nat)
+  | .list (.atom "l" :: cps) => do pure (0, ← cps.mapM Sx.nat?)
+  | .list (.atom "lg" :: cps) => do pure (1, ← cps.mapM Sx.nat?)
+  | .list (.atom "li" :: cps) => do pure (2, ← cps.mapM Sx.nat?)
+  | _ => none
+
+def ovGlobs (gs : List (Nat × List Nat)) : List GiGlob :=
+  gs.filterMap fun (k, l) => match addLine (k != 0) l with
+    | .glob g => some g
+    | _ => none
+
+/-- `hiargs.rs::globs`: every `-g` glob is added first, every `--iglob` glob after them -/
+def ovModel (root : Bytes) (gs : List (Nat × List Nat)) : Gi :=
+  { root := root, globs := ovGlobs (gs.filter (·.1 != 2)) ++ ovGlobs (gs.filter (·.1 == 2)) }
+
+/-- the documentation: "the glob given later in the command line takes precedence" -/
+def ovSpec (root : Bytes) (gs : List (Nat × List Nat)) : Gi := { root := root, globs := ovGlobs gs }
+
 def parseFlags (s : String) : Option Flags :=
   match s.toList.map (· == '1') with
   | [h, d, e, f, g, p, v, r] => some ⟨h, d, e, f, g, p, v, r⟩
@@ -58,23 +91,38 @@ def handle (cmd : String) (args : List Sx) : String :=
                  .list [.atom "root", rg, ra], .list (.atom "dirs" :: dirs), .list (.atom "entries" :: ents)] =>
     match parseFlags fl, ci.bool?, cwd.bytes?, parseLines gl,
           igf.mapM (fun x => match x with | .list (.atom "f" :: ls) => parseLines ls | _ => none),
-          parseLines globs, tys.mapM parseType, tsel.bool?, rg.bytes?, ra.bytes?, dirs.mapM parseDir,
+          globs.mapM parseOvGlob, tys.mapM parseType, tsel.bool?, rg.bytes?, ra.bytes?, dirs.mapM parseDir,
           ents.mapM (fun e => match e with
             | .list (d :: comps) => do pure ((← d.bool?), (← comps.mapM Sx.bytes?))
             | _ => none) with
     | some fl, some ci, some cwd, some gl, some igf, some globs, some tys, some tsel, some rg, some ra,
       some dirs, some ents =>
-      let ov := mkGi false cwd globs
-      let m : Matchers :=
+      -- `WalkBuilder::add_ignore` builds the `--ignore-file` matchers with a fresh `GitignoreBuilder`, i.e. always
+      -- case-sensitively, whatever `--ignore-file-case-insensitive` says (`xci` = false); the documented reading
+      -- ("process ignore files case insensitively") applies the flag to them too (`xci` = ci)
+      let mk (ov : Gi) (xci : Bool) : Matchers :=
         { overrides := ov, overrideWhitelists := (ov.globs.filter (fun g => !g.isWhitelist)).length,
           types := tys, typesSelected := tsel,
-          explicit := if useIgnoreFiles fl then igf.map (mkGi ci []) else [],
+          explicit := if useIgnoreFiles fl then igf.map (mkGi xci []) else [],
           global := mkGi ci [] gl }
-      let w : World := { opts := walkOpts fl, m := m, rootGiven := rg, rootAbs := ra, files := filesOf ci dirs }
-      let wfix : World := { w with fixRebase := true }
+      let w : World := { opts := walkOpts fl, m := mk (ovModel cwd globs) false, rootGiven := rg, rootAbs := ra,
+                         files := filesOf ci dirs }
+      -- the model; the spec (all three repairs); the model with exactly one repair: re-basing, override order,
+      -- case folding of --ignore-file files
+      let wspec : World := { w with m := mk (ovSpec cwd globs) ci, fixRebase := true }
+      let wr : World := { w with fixRebase := true }
+      let wo : World := { w with m := mk (ovSpec cwd globs) false }
+      let wx : World := { w with m := mk (ovModel cwd globs) ci }
       String.ofList (ents.flatMap fun (d, comps) =>
-        [if entryVisited w comps d then '1' else '0', if entryVisited wfix comps d then '1' else '0'])
+        [w, wspec, wr, wo, wx].map fun v => if entryVisited v comps d then '1' else '0')
     | _, _, _, _, _, _, _, _, _, _, _, _ => "bad-op"
+  | "c05.flags", [.list (.atom "toks" :: ts)] =>
+    match ts.mapM parseTok with
+    | some ts =>
+      let f := foldToks ts
+      String.ofList ([f.hidden, f.no_ignore_dot, f.no_ignore_exclude, f.no_ignore_files, f.no_ignore_global,
+        f.no_ignore_parent, f.no_ignore_vcs, f.no_require_git].map fun b => if b then '1' else '0')
+    | none => "bad-op"
   | _, _ => "bad-op"
 
 end RgVerif.Driver.C05
